@@ -174,6 +174,18 @@ fn main() {
         println!("{bad} mismatches");
         return;
     }
+    if args[1] == "jsparts" {
+        // debugging aid: the file is split at lines "//---"; every part is one host entry on the same context
+        let src = std::fs::read_to_string(&args[2]).expect("read");
+        let (mut ctx, host) = boa_sim::js::new_default_context();
+        for (i, part) in src.split("//---").enumerate() {
+            let r = ctx.eval(boa_engine::Source::from_bytes(part));
+            let c = boa_sim::js::completion(&r, &mut ctx);
+            let j = ctx.run_jobs();
+            println!("#{i} {c} jobs_ok={} trace={:?} stack={}", j.is_ok(), host.trace.take(), boa_engine::verif::vm_depths(&ctx).stack);
+        }
+        return;
+    }
     if args[1] == "mod" {
         let src = std::fs::read_to_string(&args[2]).expect("read");
         let upto: u32 = std::env::var("UPTO").ok().and_then(|s| s.parse().ok()).unwrap_or(9);
